@@ -1,9 +1,9 @@
 import os
 from vlib.runner import Ob
 
-# Proposed minimal patches for the defects the obligations below expose.  `C19_PROPOSED_PATCH=1 ./check C19`
-# runs every obligation against scratch copies of the units with these substitutions applied (nothing under
-# /repo is touched) - used to show that with the patches the obligations discharge.
+# The defects A-J below were found by these obligations and are repaired in /repo (seven `fix:' commits cd2a94b..9974610, see
+# known_findings.json; the reverse patches are seeded/FIX-proxy-*).  The substitutions are kept as documentation of what each fix
+# was; on the repaired tree the patterns no longer match and nothing is substituted.
 PROPOSED_PATCH = {
     "daemon/proxyd.c": [
         # A. SERVICE_REQ: clamp the client supplied strictness before it is used as an array index (as CONNECT_REQ does)
@@ -46,7 +46,7 @@ UB_IGNORE = [r"arithmetic overflow on signed - in p_walk->chn_profile\.min_durat
 
 
 def obligations(tier, seed):
-    patch = PROPOSED_PATCH if os.environ.get("C19_PROPOSED_PATCH") == "1" else None
+    patch = None
     RB = ["vbi_proxyd_acq_thread"]     # acquisition-thread mode is outside the claim; CBMC would otherwise treat the thread body as a target of capture->method() calls
     common = dict(harness="h_c19.c", units=U, models=M, stubs=STUBS, patch=patch, ignore=UB_IGNORE, remove_bodies=RB)
     uw = {"_vbi_strlcpy.0": 130, "memcmp.0": 18, "recv.0": 17, "c19_log_send.0": 17, "c19_log_send.1": 17, "h_msg.3": 110}
